@@ -41,6 +41,8 @@ def run(rng, tier, res=None):
             X = np.array([[rng.gauss(0, 1) * rng.choice([1, 1, 10]) for _ in range(d)] for _ in range(n)])
         Y = np.array([i % K for i in range(n)], dtype=int); rng.shuffle(Y)
         Q = np.array([[rng.gauss(0, 1.5) for _ in range(d)] for _ in range(nq)])
+        scale = rng.choice([1.0, 1.0, 1e-3, 1e3, 1e-2])     # the invariances do not depend on the unit of the features
+        X = X * scale; Q = Q * scale
         if rng.random() < 0.3:
             Q[0] = X[rng.randrange(n)]
         meta = {"X": X.tolist(), "Y": Y.tolist(), "Q": Q.tolist()}
@@ -65,6 +67,12 @@ def run(rng, tier, res=None):
                     msgs.append(f"sample {old}: assigned label {na.predicted_label} vs {nb.predicted_label} after permuting")
             if list(pa) != list(pb):
                 msgs.append(f"predictions {pa} change to {pb} when the training samples are permuted")
+            # the same OBJECT re-fitted on the permuted data must agree with a fresh one
+            a.fit(X[sigma].copy(), Y[sigma].copy()); pa2 = a.predict(Q.copy())
+            st = lambda m_: [(nd.status, fb(nd.cost), nd.pred, nd.predicted_label) for nd in m_.subgraph.nodes]  # noqa
+            if st(a) != st(b) or list(pa2) != list(pb):
+                msgs.append("a classifier re-fitted on the permuted training set differs from a fresh classifier fitted on it "
+                            "(result depends on the earlier training order)")
             viol(msgs, dict(meta, metric=metric, sigma=sigma))
             res.hit("perm_checked")
         else:
